@@ -43,3 +43,6 @@ func EHandle(a int) *templ.OnceHandle {
 	}
 	return eh1
 }
+
+// EFixed is the once handle that carries its own component.
+func EFixed() templ.Component { return eh2.Once() }
